@@ -275,6 +275,17 @@ func TestStructured(t *testing.T) {
 			for _, tg := range targets {
 				probe(t, tg, m, false, "splice of two images", true)
 			}
+			// a receive loop that reuses one PDU value: this image, then another image of the same type (other counts
+			// and lengths), then this one again, all decoded into the same value - none of the calls may panic or hang
+			recv := b.New()
+			for k, im := range [][]byte{img, img2, img, img2[:cut2], img} {
+				im := im
+				if pn := vk.Guarded("probe", self+"/reused-receiver/hang", func() any { return Case{Target: self, Data: vk.Hex(im), Note: "decoded into a value that had decoded other images before"} }, func() { _ = recv.IDecode(append([]byte{}, im...)) }); pn != "" {
+					rec.Report(t, "probe", vk.Violf(self+"/panic-on-reused-receiver", Case{Target: self, Data: vk.Hex(im), Note: fmt.Sprintf("decode number %d into one value; the earlier images were other images of the same type", k+1)}, "%s: decoding into a PDU value that had decoded other images before panicked\n%s", s.ID(), pn))
+					break
+				}
+			}
+			rec.Class("receiver_reused")
 		}))
 	}
 }
